@@ -219,11 +219,17 @@ def run(tier, work):
         files = C.job_files_for_replay({"cfg": job.get("cfg"), "files": job["files"], "args": job["args"]})
         files["base/t.rb"] = jobs[base_i]["files"]["t.rb"]
         v.fail(key, "%s: renaming %s %s changes the output beyond the names: %r" % (tag, kind, pairs, diff), files)
+    # (d) spec/Names.tla: every binding position of every lexical category written with every spelling of the category
+    from . import names as N
+    names_info = N.run(v, work, stats, "class-rename/1-char")
+    compared += names_info["spellings_compared"]
     v.sample({"naming_schemes": schemes, "fresh_locals": LOCAL_NAMES, "fresh_classes": CLASS_NAMES})
     cov = {"states": stats["states"], "transitions": stats["transitions"], "traces_validated_against_impl": compared,
-           "renamings_compared": compared,
+           "renamings_compared": compared, "binding_positions": names_info,
            "rule": "TLC-generated class programs under 3 naming schemes; generated straight-line / conditional / block programs with "
-                   "locals renamed; corpus programs with one local / method / class renamed (names of 1 to 22 characters)"}
+                   "locals renamed; corpus programs with one local / method / class renamed (names of 1 to 22 characters); Names.tla: 30 "
+                   "binding positions (assignment forms, block / method / keyword / rest parameters, pattern variables, rescue, for, "
+                   "def / def self. / attr_*, class / module / constant, @ivar, $gvar) x every spelling of the category"}
     return v.finish("model_checking", cov, assumptions=[
         "corpus identifiers are renamed only when the harness' scanner can classify them (assigned locals never used with a dot, "
         "keyword or block syntax; def'd method names not used as symbols or keys; class names without namespace use)",
